@@ -89,7 +89,7 @@ SKIP = {
     # sparse helper matrices (representation, not measures)
     "sp_Aplus", "sp_diag_w", "sp_diag_w_inv", "sp_diag_sqrt_w", "sp_nsi_diag_k", "sp_nsi_diag_k_inv",
 }
-GLOBAL_VECTOR_HINTS = ("distribution", "cdf", "histogram")
+GLOBAL_VECTOR_HINTS = ("distribution", "cdf", "histogram", "~list")
 
 
 def discover(obj, extra_skip=()):
